@@ -190,4 +190,18 @@ CLAIMS = {
              "rule table with the enabled set over histories and timeout timing are not decided.",
         technique="handle-flow pairing; CFG guards/must-pass; who-may-call; config-spec table checks",
         ref="4/C10"),
+    "C11": dict(
+        text="Static analysis of structural necessary conditions of player isolation: player.vars is written only inside "
+             "Player (every other module goes through __setattr__/__setitem__ and hence the change event); in "
+             "Player.__setattr__ the previous value is read before the store, change = value - previous (or 'differs'), and "
+             "player_<name> is posted after the store with (name, new value, previous, change, that player's number) mapped "
+             "one to one; every attribute a mode device binds to the player (or to player[...]) in device_loaded_in_mode - "
+             "discovered over all ModeDevice subclasses - is reset to None on every path of device_removed_from_mode (through "
+             "unconditional super() chains), except the tabled Timer.player whose harmlessness depends on stop() and "
+             "_remove_control_events() running on every path, which is checked; device state stored into a player is a "
+             "fresh object (LogicBlockState() created only when the player has none) and never an alias of a mutable "
+             "config container; a new game starts with no players and each Player owns a new variable dict. Value equality "
+             "across turns for arbitrary devices is not decided.",
+        technique="who-may-write; CFG must-pass through super() chains; def-use discovery of player-bound attributes; freshness of stored values",
+        ref="4/C11"),
 }
